@@ -78,6 +78,10 @@ func init() {
 	for _, n := range vals.LibStructs {
 		types = append(types, lib(n))
 	}
+	for _, n := range vals.LibNamedComposites {
+		types = append(types, lib(n))
+	}
+	types = append(types, sl(lib("MyOctet")), sl(lib("RawBytes")), ptr(lib("RawBytes")), mp(k("string"), lib("Octets")), st(lib("MyInts")), sl(lib("MyFunc")), ptr(lib("MyChan")), st(lib("MyIface")))
 	elems := []vals.T{k("int"), k("string"), k("bool"), k("float64"), k("complex128"), k("uintptr"), k("iface"), k("bytes"), k("time"), lib("MyErr"), lib("StrStringer"), lib("native.JS"), lib("JSStr"), lib("JSONEnvStr")}
 	for _, e := range elems {
 		types = append(types, sl(e), arr(e), mp(k("string"), e), ptr(e), st(k("int"), e))
